@@ -77,7 +77,7 @@ def run_split(R, rng, sp, label, tier):
         if not compile_all(R, tmp, sp, label):
             return
         root_names = [n for n, _, _, _ in sp.roots]
-        root_funcs = [f for _, fs, _, _ in sp.roots for f in fs]
+        root_funcs = [f for _, fs, _, _ in sp.roots for f in fs if f.exported]
         gl0 = {g[1]: 3 for _, _, _, gl in sp.roots for g in gl}
         exp = expected(sp, root_funcs, gl0)
         calls = [[f.name, {"x": x}, gl0] for f in root_funcs for x in INPUT_X]
@@ -139,6 +139,10 @@ def run_split(R, rng, sp, label, tier):
                 R.count("added_and_imported_accepted")
             else:
                 R.count("added_and_imported_rejected")
+        # a library re-stored under the same name between two links in ONE process (default-constructed Linkers):
+        # the second link must see the new contents
+        if sp.libs:
+            relink_after_restore(R, rng, tmp, sp, root_names, root_funcs, gl0, label)
         # duplicate definitions across two added modules must fail the link
         for what in ("function", "global"):
             a = "dupa_%s" % what
@@ -168,6 +172,50 @@ def run_split(R, rng, sp, label, tier):
                     R.count("duplicate_rejected")
     finally:
         shutil.rmtree(tmp, ignore_errors=True)
+
+
+def relink_after_restore(R, rng, tmp, sp, root_names, root_funcs, gl0, label):
+    import re
+    lib = sp.libs[0][0]
+    text = sp.layouts[lib][0]
+    # version 2 of the library: same signatures, every integer literal of the bodies shifted
+    v2 = re.sub(r"(?<![\w.])(\d+)(?![\w.])", lambda m: str(int(m.group(1)) + 3), text)
+    if v2 == text:
+        return
+    os.makedirs(os.path.dirname(os.path.join(tmp, "v2", lib + ".nsl")), exist_ok=True)
+    # compile version 2 in a directory of its own (it imports nothing that changed)
+    for n2, _, _ in sp.libs:
+        src = v2 if n2 == lib else sp.layouts[n2][0]
+        os.makedirs(os.path.dirname(os.path.join(tmp, "v2", n2 + ".nsl")), exist_ok=True)
+        with open(os.path.join(tmp, "v2", n2 + ".nsl"), "w") as f:
+            f.write(src)
+        rc, out = runner.nslc(os.path.join(tmp, "v2"), n2 + ".nsl", n2 + ".nslir")
+        if rc != 0:
+            R.count("relink_setup_failed")
+            return
+    import shutil as _sh
+    _sh.copyfile(os.path.join(tmp, lib + ".nslir"), os.path.join(tmp, "lib_v1.bin"))
+    _sh.copyfile(os.path.join(tmp, "v2", lib + ".nslir"), os.path.join(tmp, "lib_v2.bin"))
+    calls = [[f.name, {"x": x}, gl0] for f in root_funcs for x in INPUT_X]
+    roots = [n + ".nslir" for n in root_names]
+    two = runner.helper("relink", {"cwd": tmp, "rounds": [{"install": {lib + ".nslir": "lib_v1.bin"}, "modules": roots, "calls": calls},
+                                                            {"install": {lib + ".nslir": "lib_v2.bin"}, "modules": roots, "calls": calls}]})
+    fresh = runner.helper("relink", {"cwd": tmp, "rounds": [{"install": {lib + ".nslir": "lib_v2.bin"}, "modules": roots, "calls": calls}]})
+    _sh.copyfile(os.path.join(tmp, "lib_v1.bin"), os.path.join(tmp, lib + ".nslir"))
+    R.count("relink_processes", 2)
+    R.evaluations += 1
+    if two.get("error") or fresh.get("error") or len(two.get("rounds", [])) != 2:
+        R.inconclusive.append("relink helper failed: %s %s" % (two.get("error"), fresh.get("error")))
+        return
+    a, b = two["rounds"][1], fresh["rounds"][0]
+    if a != b:
+        R.violation("relink-after-restore-sees-stale-module", "%s: after %s was stored again, a second link in the same process behaves differently from "
+                    "a fresh process linking the new files: %s vs %s" % (label, lib, str(a)[:160], str(b)[:160]),
+                    {"sources": {n: sp.layouts[n][0] for n in sp.layouts}, "library_v2": v2, "add_order": root_names})
+    else:
+        R.count("relink_rounds_agree")
+        if two["rounds"][0] != a:
+            R.count("relink_rounds_where_v2_changes_results")
 
 
 def run_shard(tier, seed, shard, n, R):
